@@ -1,7 +1,102 @@
-(** C17 - dynamic threads: property theorems (statements only). *)
-From Coq Require Import NArith List Bool.
-Local Open Scope N_scope.
-(** placeholder obligation (the thread_block_list model replaces it) *)
-Theorem C17_reuse_bound : forall live peak created : N, live <= peak -> peak <= created -> live <= created.
-Proof. intros. eapply N.le_trans; eauto. Qed.
-Print Assumptions C17_reuse_bound.
+(** C17 - dynamic threads: the per-thread record list (thread_block_list) - property theorems (statements only).
+    Model: Model/TblDefs.v (tied to xenium/reclamation/detail/thread_block_list.hpp by trace correspondence,
+    harness/h_tbl.cpp); proofs: Proof/TblInv.v. *)
+From Coq Require Import NArith List Bool Arith.
+From XV Require Import Conc.Lts Conc.Ev Conc.Solo Model.TblDefs Proof.TblInv.
+Import ListNotations.
+
+(** an entry is never owned by two threads; the entry a thread holds is owned by it and is not free *)
+Theorem C17_tbl_exclusive_owner : forall st,
+  reach init step st ->
+  (forall t, owned st t <> 0 ->
+     g_owner st (owned st t) = Some t /\ (est st (owned st t) = 1 \/ est st (owned st t) = 2) /\ 1 <= owned st t <= nent st) /\
+  (forall t1 t2, owned st t1 <> 0 -> owned st t1 = owned st t2 -> t1 = t2) /\
+  (forall e t, g_owner st e = Some t -> (est st e = 1 \/ est st e = 2) /\ 1 <= e <= nent st) /\
+  (forall e, est st e = 0 <-> g_owner st e = None).
+Proof. exact tbl_exclusive_owner. Qed.
+Print Assumptions C17_tbl_exclusive_owner.
+
+(** the list from head: duplicate free, exactly the created entries that are not still being inserted *)
+Theorem C17_tbl_list_wf : forall st,
+  reach init step st ->
+  exists l, chain (nxt st) (head st) l /\ NoDup l /\ length l = g_nlinked st /\
+    (forall e, In e l <-> 1 <= g_rank st e) /\
+    (forall e, In e l <-> (1 <= e <= nent st /\ forall t, pend_entry (th st t) <> e)).
+Proof. exact tbl_list_wf. Qed.
+Print Assumptions C17_tbl_list_wf.
+
+Theorem C17_tbl_list_complete : forall st,
+  reach init step st -> (forall t, pend_entry (th st t) = 0) ->
+  exists l, chain (nxt st) (head st) l /\ NoDup l /\ length l = nent st /\ (forall e, In e l <-> 1 <= e <= nent st).
+Proof. exact tbl_list_complete. Qed.
+Print Assumptions C17_tbl_list_complete.
+
+(** entries are never removed, next pointers of linked entries never change *)
+Theorem C17_tbl_entries_never_removed : forall st a st' es l,
+  reach init step st -> step st a = Some (st', es) -> chain (nxt st) (head st) l ->
+  (forall e, In e l -> nxt st' e = nxt st e) /\
+  (chain (nxt st') (head st') l \/ exists n, ~ In n l /\ chain (nxt st') (head st') (n :: l)) /\
+  nent st <= nent st'.
+Proof. exact tbl_entries_never_removed. Qed.
+Print Assumptions C17_tbl_entries_never_removed.
+
+(** g_live counts the threads that hold an entry or are inside an acquire; g_peak dominates it *)
+Theorem C17_tbl_live_char : forall st,
+  reach init step st ->
+  g_live st = length (g_threads st) /\ NoDup (g_threads st) /\ g_live st <= g_peak st /\
+  (forall t, In t (g_threads st) <-> (owned st t <> 0 \/ acquiring (th st t))).
+Proof. exact tbl_live_char. Qed.
+Print Assumptions C17_tbl_live_char.
+
+(** per-thread bookkeeping is bounded by the peak number of simultaneously live threads *)
+Theorem C17_tbl_bounded_by_peak : forall st, reach init step st -> nent st <= g_peak st.
+Proof. exact tbl_bounded_by_peak. Qed.
+Print Assumptions C17_tbl_bounded_by_peak.
+
+Theorem C17_tbl_depth_bound : forall st t c,
+  reach init step st -> In t (g_threads st) -> cur st t = Some c ->
+  (g_nlinked st - g_rank st c) + npend st + 1 <= g_peak st /\ nent st = g_nlinked st + npend st.
+Proof. exact tbl_depth_bound. Qed.
+Print Assumptions C17_tbl_depth_bound.
+
+(** stronger natural statements are false (counterexample schedules checked by computation) *)
+Theorem C17_tbl_create_only_if_all_busy_refuted :
+  ~ (forall st a st' es, reach init step st -> step st a = Some (st', es) -> nent st' = S (nent st) ->
+       forall e, 1 <= e <= nent st -> est st e <> 0).
+Proof. exact tbl_create_only_if_all_busy_refuted. Qed.
+Print Assumptions C17_tbl_create_only_if_all_busy_refuted.
+
+Theorem C17_tbl_bounded_by_current_live_refuted :
+  ~ (forall st a st' es, reach init step st -> step st a = Some (st', es) -> nent st' = S (nent st) -> nent st' <= g_live st').
+Proof. exact tbl_bounded_by_current_live_refuted. Qed.
+Print Assumptions C17_tbl_bounded_by_current_live_refuted.
+
+Theorem C17_tbl_bounded_by_peak_owned_refuted :
+  ~ (forall acts, nent (final acts) <= fold_right Nat.max 0 (map busy (states_of acts))).
+Proof. exact tbl_bounded_by_peak_owned_refuted. Qed.
+Print Assumptions C17_tbl_bounded_by_peak_owned_refuted.
+
+(** records of exited threads are reused *)
+Theorem C17_tbl_reuse : forall st t,
+  reach init step st ->
+  (th st t = Begin OAcquire \/ th st t = Begin OAcquireInactive \/ exists ini, th st t = W0 ini) ->
+  (exists e, 1 <= e <= nent st /\ est st e = 0) ->
+  exists n st', n <= 2 * nent st + 5 /\ solo_steps step Step idle t n st st' /\
+    th st' t = Idle /\ nent st' = nent st /\ 1 <= owned st' t <= nent st /\
+    g_owner st' (owned st' t) = Some t.
+Proof. exact tbl_reuse. Qed.
+Print Assumptions C17_tbl_reuse.
+
+(** solo termination (used by C16) *)
+Theorem C17_tbl_solo : forall st t,
+  reach init step st -> finishes_within step Step idle t (tbl_mu st t) st.
+Proof. exact tbl_solo. Qed.
+Print Assumptions C17_tbl_solo.
+
+Theorem C17_tbl_acquire_solo_terminates : forall st t,
+  reach init step st ->
+  finishes_within step Step idle t (2 * nent st + 5) st /\
+  (th st t = R1 \/ th st t = V1 -> finishes_within step Step idle t 1 st) /\
+  (th st t = Begin ORelease \/ th st t = Begin OActivate -> finishes_within step Step idle t 2 st).
+Proof. exact tbl_acquire_solo_terminates. Qed.
+Print Assumptions C17_tbl_acquire_solo_terminates.
